@@ -12,6 +12,28 @@ def has_call(sl, suffix):
     return any(callee_def(t).endswith(suffix) for _, t, _ in sl.calls)
 
 
+INEXACT = ("unwrap_or", "unwrap_or_default", "unwrap_or_else", "min", "max", "clamp", "rem_euclid", "abs_diff")
+
+
+def _inexact_conversions(body, sl):
+    """defaulting / saturating / wrapping / clamping steps and narrowing `as` casts in the slice of a compared quantity"""
+    out = []
+    for _, t, _ in sl.calls:
+        n = short(callee_def(t))
+        if n in INEXACT or n.startswith(("saturating_", "wrapping_", "overflowing_")):
+            out.append(n)
+    order = {"i8": 8, "u8": 8, "i16": 16, "u16": 16, "i32": 32, "u32": 32, "i64": 64, "u64": 64, "isize": 64, "usize": 64, "i128": 128, "u128": 128}
+    for l in sl.locals:
+        for df in body.defs().get(l, []):
+            if df["kind"] == "assign" and df["rv"]["k"] == "cast" and "IntToInt" in df["rv"].get("ck", ""):
+                src = flow.op_place(df["rv"]["ops"][0])
+                sty = body.locals[src["l"]] if src is not None and not src["proj"] and src["l"] < len(body.locals) else None
+                dty = df["rv"].get("ty") or (body.locals[l] if l < len(body.locals) else None)
+                if sty in order and dty in order and order[dty] < order[sty]:
+                    out.append("`as %s`" % dty)
+    return out
+
+
 def rule_r1(chk, db, v):
     body = v.body
     cmps = cmpnorm.ordered_comparisons(body)
@@ -36,6 +58,13 @@ def rule_r1(chk, db, v):
                     "acceptance is not dominated by the `elapsed <= X-Amz-Expires` outcome (test is `elapsed %s expires`)" % rel)
         fw = first_writes_from(body, rej_edges)
         chk.verdict(bool(fw) and all(is_err_write(w) for w in fw), "R1", "expired-is-error", body.loc(c.bi), "an expired URL does not end in an error return")
+        # the elapsed time enters the comparison exactly: a conversion that substitutes a default / saturates / wraps when the value does not
+        # fit (`u32::try_from(secs).unwrap_or(0)`, `as u32`, `min`) makes a very old (or far-future) date compare as fresh
+        side = "l" if is_elapsed(c.sl("l")) and ("PresignedUrlV4", "expires") not in c.sl("l").fields else "r"
+        inexact = _inexact_conversions(body, c.sl(side))
+        chk.verdict(not inexact, "R1", "expiry-exact-elapsed", body.loc(c.bi),
+                    "the time elapsed since X-Amz-Date passes %s before it is compared with X-Amz-Expires: where the value does not fit, the substitute "
+                    "makes an expired URL compare as valid" % sorted(set(inexact)))
     if not found:
         chk.fail("R1", "expiry", body.loc(), "no comparison between the time elapsed since X-Amz-Date and (exactly) X-Amz-Expires guards acceptance")
     # skew: |elapsed| <= 900 s for future-dated requests
